@@ -25,7 +25,8 @@ Verdict(e, menu) ==
                cls == <<"StStep", e.op, e.form, OverflowOf(td), RoundingOf(td),
                         IF Signalled(e.op, ta, ra, tb, rb, td) THEN "overflow" ELSE "in_range",
                         \* (the class "div_operand_narrowed" disappeared with the fix of the elastic / and % operand cast)
-                        IF DivBiasOverflows(e.op, ta, ra, tb, rb) THEN "div_bias_overflows"
+                        IF e.op = "mod" /\ ShiftExceedsDigits(e.op, ta, ra, tb, rb, td) THEN "shift_exceeds_digits"
+                        ELSE IF DivBiasOverflows(e.op, ta, ra, tb, rb) THEN "div_bias_overflows"
                         ELSE IF NarrowingBiasUnrepresentable(e.op, ta, ra, tb, rb, td) THEN "narrowing_bias_unrepresentable"
                         ELSE IF ShrLeavesRange(e.op, ta, ra, tb, rb, td) THEN "shr_negative_leaves_range"
                         ELSE "plain">>
